@@ -888,4 +888,310 @@ theorem bs_find_sortHashes (l : List (Bytes × ResponseHashes)) (hnd : (l.map Pr
     (sortHashes l).find? (·.1 == u) = l.find? (·.1 == u) :=
   Sxg.inv_find_perm _ _ (bs_sortHashes_perm l) hnd u
 
+/-! ### the signing loop -/
+
+/-- `Exchange.AddPayloadIntegrity`: body MI-encoded, `Content-Encoding` and `Digest` added -/
+def piExch (H : Bytes → Bytes) (rs : Nat) (e : Exch) : Exch :=
+  { url := e.url,
+    resp := { status := e.resp.status, body := (Mice.encode H .draft03 e.resp.body rs).1,
+              headers := add (add e.resp.headers Sxg.hContentEncoding Mice.Enc.draft03.name) hDigest
+                (Mice.encode H .draft03 e.resp.body rs).2 } }
+
+theorem bs_addPayloadIntegrity_eq {H : Bytes → Bytes} {e e' : Exch} {rs : Nat} (h : addPayloadIntegrity H e rs = some e') :
+    values e.resp.headers hDigest = [] ∧ e' = piExch H rs e := by
+  unfold addPayloadIntegrity at h
+  by_cases hg : values e.resp.headers hDigest ≠ []
+  · rw [if_pos hg] at h; cases h
+  · rw [if_neg hg] at h
+    injection h with h
+    exact ⟨by simpa using hg, h.symm⟩
+
+/-- the `ResponseHashes` the signer records for a covered exchange -/
+def hashOf (H : Bytes → Bytes) (rs : Nat) (e : Exch) : ResponseHashes :=
+  { variantsValue := [],
+    hashes := [{ headerSha256 := (headerSha256 H (piExch H rs e).resp).getD [],
+                 payloadIntegrityHeader := Mice.Enc.draft03.integrityIdentifier }] }
+
+/-- the exchange of the signed bundle that corresponds to `e` -/
+def signedView (H : Bytes → Bytes) (canSign : Bytes → Bool) (rs : Nat) (e : Exch) : Exch :=
+  if canSign e.url = true then piExch H rs e else e
+
+/-- the `SubsetHashes` map of the signer, in the order of the exchanges -/
+def coveredHashes (H : Bytes → Bytes) (canSign : Bytes → Bool) (rs : Nat) (es : List Exch) : List (Bytes × ResponseHashes) :=
+  (es.filter fun e => canSign e.url).map fun e => (e.url, hashOf H rs e)
+
+theorem bs_signExchanges_spec (H : Bytes → Bytes) (canSign : Bytes → Bool) (rs : Nat) :
+    ∀ (es done : List Exch) (hashes : List (Bytes × ResponseHashes)) (exs : List Exch) (hs : List (Bytes × ResponseHashes)),
+    signExchanges H canSign rs es done hashes = some (exs, hs) →
+    exs = done ++ es.map (signedView H canSign rs) ∧ hs = hashes ++ coveredHashes H canSign rs es ∧
+    (∀ e ∈ es, canSign e.url = true → values e.resp.headers hDigest = [] ∧
+      ∃ hd, headerSha256 H (piExch H rs e).resp = some hd) ∧
+    ((hashes.map Prod.fst).Nodup → (hs.map Prod.fst).Nodup) := by
+  intro es
+  induction es with
+  | nil =>
+    intro done hashes exs hs h
+    simp only [signExchanges, Option.some.injEq, Prod.mk.injEq] at h
+    obtain ⟨rfl, rfl⟩ := h
+    exact ⟨by simp, by simp [coveredHashes], fun e he => by cases he, fun h => h⟩
+  | cons e rest ih =>
+    intro done hashes exs hs h
+    rw [signExchanges] at h
+    by_cases hc : canSign e.url = true
+    · rw [if_neg (by simp [hc])] at h
+      cases hpi : addPayloadIntegrity H e rs with
+      | none => simp only [hpi] at h; cases h
+      | some e' =>
+        simp only [hpi] at h
+        obtain ⟨hno, he'⟩ := bs_addPayloadIntegrity_eq hpi
+        subst he'
+        cases hhs : headerSha256 H (piExch H rs e).resp with
+        | none => simp only [hhs] at h; cases h
+        | some hd =>
+          simp only [hhs] at h
+          by_cases hany : (hashes.any (·.1 == (piExch H rs e).url)) = true
+          · rw [if_pos hany] at h; cases h
+          · rw [if_neg hany] at h
+            obtain ⟨h1, h2, h3, h4⟩ := ih _ _ _ _ h
+            have hrec : ({ variantsValue := [], hashes := [{ headerSha256 := hd,
+                payloadIntegrityHeader := Mice.Enc.draft03.integrityIdentifier }] } : ResponseHashes) = hashOf H rs e := by
+              unfold hashOf; rw [hhs]; rfl
+            have hurl : (piExch H rs e).url = e.url := rfl
+            rw [hrec, hurl] at h2 h4
+            refine ⟨?_, ?_, ?_, ?_⟩
+            · rw [h1, List.map_cons, signedView, if_pos hc, List.append_assoc, List.singleton_append]
+            · rw [h2, coveredHashes, List.filter_cons, if_pos hc, List.map_cons, List.append_assoc, List.singleton_append]
+              rfl
+            · intro x hx hcx
+              rcases List.mem_cons.mp hx with rfl | hx
+              · exact ⟨hno, hd, hhs⟩
+              · exact h3 x hx hcx
+            · intro hnd
+              apply h4
+              rw [List.map_append, List.map_cons, List.map_nil]
+              rw [List.nodup_append]
+              refine ⟨hnd, by simp, ?_⟩
+              intro a ha b hb hab
+              rw [List.mem_singleton.mp hb] at hab
+              subst hab
+              apply hany
+              obtain ⟨x, hx, hxa⟩ := List.mem_map.mp ha
+              exact List.any_eq_true.mpr ⟨x, hx, by rw [hurl]; simp [hxa]⟩
+    · rw [if_pos (by simp [hc])] at h
+      obtain ⟨h1, h2, h3, h4⟩ := ih _ _ _ _ h
+      refine ⟨?_, ?_, ?_, h4⟩
+      · rw [h1, List.map_cons, signedView, if_neg hc, List.append_assoc, List.singleton_append]
+      · rw [h2, coveredHashes, List.filter_cons, if_neg hc]
+        rfl
+      · intro x hx hcx
+        rcases List.mem_cons.mp hx with rfl | hx
+        · exact absurd hcx hc
+        · exact h3 x hx hcx
+
+theorem bs_find_of_mem {β : Type} (l : List (Bytes × β)) (hnd : (l.map Prod.fst).Nodup) (k : Bytes) (v : β)
+    (hm : (k, v) ∈ l) : l.find? (·.1 == k) = some (k, v) := by
+  cases hf : l.find? (·.1 == k) with
+  | none =>
+    rw [List.find?_eq_none] at hf
+    exact absurd (by simp) (hf _ hm)
+  | some x =>
+    have hx := List.mem_of_find?_eq_some hf
+    have hxk : (x.1 == k) = true := List.find?_some (p := fun kv : Bytes × β => kv.1 == k) hf
+    rw [Sxg.inv_eq_of_mem_of_key_eq l hnd x (k, v) hx hm (eq_of_beq hxk)]
+
+theorem bs_headerSha256_length {H : Bytes → Bytes} (hlen : ∀ x, (H x).length = 32) (r : Resp) :
+    ((headerSha256 H r).getD []).length < 2 ^ 63 := by
+  unfold headerSha256
+  cases encodeRespHeader r with
+  | error e => decide
+  | ok b => simp only [Option.getD_some, hlen]; decide
+
+theorem bs_covered_good {H : Bytes → Bytes} (hlen : ∀ x, (H x).length = 32) (canSign : Bytes → Bool) (rs : Nat)
+    (es : List Exch) (hurls : ∀ e ∈ es, canSign e.url = true → utf8Valid e.url = true ∧ e.url.length < 2 ^ 63) :
+    ∀ p ∈ coveredHashes H canSign rs es, GoodEntry p := by
+  intro p hp
+  obtain ⟨e, he, rfl⟩ := List.mem_map.mp hp
+  obtain ⟨hmem, hc⟩ := List.mem_filter.mp he
+  obtain ⟨u1, u2⟩ := hurls e hmem hc
+  refine ⟨u1, u2, by decide, by simp [hashOf], by decide, ?_⟩
+  intro ri hri
+  simp only [hashOf, List.mem_singleton] at hri
+  subst hri
+  exact ⟨bs_headerSha256_length hlen _, by decide +kernel, by decide⟩
+
+/-! ### completeness of the two verifier steps -/
+
+/-- converse of `bs_verifyVouchedSubset_sound` -/
+theorem bs_verifyVouchedSubset_complete {env : VEnv} {vs : VouchedSubset} {auths : List AugCert} {t : GoTime.T} {ver : BVer}
+    {ss : SignedSubset} {cert : AugCert}
+    (hidx : auths[vs.authority]? = some cert) (hkey : env.keyOk cert.cert = true)
+    (hsv : env.sigVerify cert.cert (signedMessage vs.signed ver) vs.sig = true)
+    (hd : decodeSignedSubset env.urlOk vs.signed = some ss) (hauth : ss.authSha256 = env.H cert.cert)
+    (hlife : GoTime.sub (GoTime.ofUnix ss.expires 0) (GoTime.ofUnix ss.date 0) ≤ 604800 * 1000000000)
+    (hb : GoTime.before t (GoTime.ofUnix ss.date 0) = false) (ha : GoTime.after t (GoTime.ofUnix ss.expires 0) = false) :
+    verifyVouchedSubset env vs auths t ver = some (ss, cert) := by
+  have hlt : vs.authority < auths.length := by
+    cases hl : auths[vs.authority]? with
+    | none => rw [hl] at hidx; cases hidx
+    | some c => exact (List.getElem?_eq_some_iff.mp hl).1
+  have hget : auths.getD vs.authority default = cert := by
+    rw [List.getD_eq_getElem?_getD, hidx]; rfl
+  unfold verifyVouchedSubset
+  rw [if_neg (by omega)]
+  simp only [hget]
+  rw [if_neg (by simp [hkey]), if_neg (by simp [hsv])]
+  simp only [hd]
+  rw [if_neg (by simp [hauth]), if_neg (by omega), if_neg (by simp [hb]), if_neg (by simp [ha])]
+
+theorem bs_verifyVouchedSubset_iff {env : VEnv} {vs : VouchedSubset} {auths : List AugCert} {t : GoTime.T} {ver : BVer}
+    {ss : SignedSubset} {cert : AugCert} :
+    verifyVouchedSubset env vs auths t ver = some (ss, cert) ↔
+      (auths[vs.authority]? = some cert ∧ env.keyOk cert.cert = true ∧
+       env.sigVerify cert.cert (signedMessage vs.signed ver) vs.sig = true ∧
+       decodeSignedSubset env.urlOk vs.signed = some ss ∧ ss.authSha256 = env.H cert.cert ∧
+       GoTime.sub (GoTime.ofUnix ss.expires 0) (GoTime.ofUnix ss.date 0) ≤ 604800 * 1000000000 ∧
+       GoTime.before t (GoTime.ofUnix ss.date 0) = false ∧ GoTime.after t (GoTime.ofUnix ss.expires 0) = false) := by
+  constructor
+  · intro h
+    obtain ⟨_, h1, h2, h3, h4, h5, h6, h7, h8⟩ := bs_verifyVouchedSubset_sound h
+    exact ⟨h1, h2, h3, h4, h5, h6, h7, h8⟩
+  · rintro ⟨h1, h2, h3, h4, h5, h6, h7, h8⟩
+    exact bs_verifyVouchedSubset_complete h1 h2 h3 h4 h5 h6 h7 h8
+
+/-- converse of `bs_verifyExchange_sound` for a verifier with one trusted subset -/
+theorem bs_verifyExchange_complete {env : VEnv} {ver : BVer} {ss : SignedSubset} {auth : AugCert} {e : Exch}
+    {rhs : ResponseHashes} {rh : ResourceIntegrity} {p : Bytes}
+    (hfind : ss.subsetHashes.find? (·.1 == e.url) = some (e.url, rhs))
+    (hvv : rhs.variantsValue = []) (hrh : rhs.hashes = [rh])
+    (hhs : headerSha256 env.H e.resp = some rh.headerSha256)
+    (hid : rh.payloadIntegrityHeader = Mice.Enc.draft03.integrityIdentifier)
+    (hne : get e.resp.headers hDigest ≠ [])
+    (hdec : Mice.decodeAll env.H .draft03 e.resp.body (get e.resp.headers hDigest) 16384 = (p, .eof)) :
+    verifyExchange env ver [(ss, auth)] e = .verified p auth.cert := by
+  unfold verifyExchange
+  simp only [List.findSome?_cons, List.findSome?_nil, hfind, Option.map_some]
+  rw [if_neg (by rw [hvv, hrh]; simp)]
+  simp only [hrh, List.headD_cons, hhs]
+  rw [if_neg (by simp), if_neg (by simp [hid]), if_neg hne, hdec]
+
+theorem bs_verifyExchange_unsigned {env : VEnv} {ver : BVer} {ss : SignedSubset} {auth : AugCert} {e : Exch}
+    (hfind : ss.subsetHashes.find? (·.1 == e.url) = none) :
+    verifyExchange env ver [(ss, auth)] e = .unsigned := by
+  unfold verifyExchange
+  simp only [List.findSome?_cons, List.findSome?_nil, hfind, Option.map_none]
+
+theorem bs_piExch_digest (H : Bytes → Bytes) (rs : Nat) (e : Exch) (hno : values e.resp.headers hDigest = []) :
+    get (piExch H rs e).resp.headers hDigest = (Mice.encode H .draft03 e.resp.body rs).2 := by
+  unfold get piExch
+  simp only
+  rw [Sxg.inv_values_add_same, Sxg.inv_values_add_other _ _ _ _ (Sxg.inv_digestName_ne .draft03), hno]
+  rfl
+
+/-! ### the main theorem -/
+
+/-- **an honestly signed bundle verifies.**  The first signer runs on a bundle without signatures section;
+    the environment accepts the signature on the message it was given; the validity URL and the URLs of the
+    covered exchanges are valid UTF-8 (CBOR text strings) of representable length; the dates are non-negative
+    (they are written with `EncodeInt` and read with `DecodeUint`), at most 7 days apart, and `t` is inside the
+    window.  Then `NewVerifier` accepts the section with exactly one trusted subset — the signer's, with the
+    URL map in encoded-key order — under the signer's leaf certificate; every covered exchange verifies with
+    its original body, and every other exchange is reported unsigned.
+    (That the covered URLs are pairwise distinct is not a hypothesis: `addSignature` fails otherwise.) -/
+theorem bs_honest_verifies (env : VEnv) (hlen : ∀ x, (env.H x).length = 32) (canSign : Bytes → Bool) (rs : Nat)
+    (hrs : 1 ≤ rs) (hrs2 : rs ≤ 16384) (b b' : Bundle) (certs : List AugCert) (vurl : Bytes) (date expires : Int)
+    (sig msg : Bytes) (t : GoTime.T)
+    (hfirst : b.signatures = none)
+    (hadd : addSignature env.H canSign rs b certs vurl date expires sig = some (b', msg))
+    (hkey : env.keyOk (certs.headD default).cert = true)
+    (hsv : env.sigVerify (certs.headD default).cert msg sig = true)
+    (hvu : utf8Valid vurl = true) (hvl : vurl.length < 2 ^ 63) (hok : env.urlOk vurl = true)
+    (hd : 0 ≤ date ∧ date < 2 ^ 62) (hx : 0 ≤ expires ∧ expires < 2 ^ 62) (hlife : expires - date ≤ 604800)
+    (ht1 : GoTime.before t (GoTime.ofUnix date 0) = false) (ht2 : GoTime.after t (GoTime.ofUnix expires 0) = false)
+    (hurls : ∀ e ∈ b.exchanges, canSign e.url = true → utf8Valid e.url = true ∧ e.url.length < 2 ^ 63)
+    (hn : b.exchanges.length < 2 ^ 64) :
+    ∃ (sigs' : Sigs) (ss : SignedSubset) (hne : certs ≠ []),
+      b'.signatures = some sigs' ∧
+      newVerifier env sigs' t b.version = some [(ss, certs.head hne)] ∧
+      ss = { validityUrl := vurl, authSha256 := env.H (certs.head hne).cert, date := date, expires := expires,
+             subsetHashes := sortHashes (coveredHashes env.H canSign rs b.exchanges) } ∧
+      b'.exchanges = b.exchanges.map (signedView env.H canSign rs) ∧
+      ∀ e ∈ b.exchanges,
+        (canSign e.url = true →
+          verifyExchange env b.version [(ss, certs.head hne)] (piExch env.H rs e) =
+            .verified e.resp.body (certs.head hne).cert) ∧
+        (canSign e.url = false → verifyExchange env b.version [(ss, certs.head hne)] e = .unsigned) := by
+  obtain ⟨hval, exs, hashes, signedBytes, hse, henc, hb', hmsg⟩ := bs_addSignature_eq hadd
+  have hne := bs_validate_ne_nil hval
+  obtain ⟨c, crest, rfl⟩ : ∃ c crest, certs = c :: crest := by
+    cases certs with
+    | nil => exact absurd rfl hne
+    | cons c crest => exact ⟨c, crest, rfl⟩
+  have hhead : (c :: crest).headD default = c := rfl
+  rw [hhead] at hkey hsv
+  obtain ⟨hexs, hhashes, hcov, hndp⟩ := bs_signExchanges_spec env.H canSign rs _ _ _ _ _ hse
+  rw [List.nil_append] at hexs hhashes
+  have hnd : (hashes.map Prod.fst).Nodup := hndp List.nodup_nil
+  subst hhashes
+  have hgood := bs_covered_good hlen canSign rs b.exchanges hurls
+  have hcl : (coveredHashes env.H canSign rs b.exchanges).length < 2 ^ 64 := by
+    have : (coveredHashes env.H canSign rs b.exchanges).length ≤ b.exchanges.length := by
+      unfold coveredHashes
+      rw [List.length_map]
+      exact List.length_filter_le _ _
+    omega
+  have hdec := bs_decode_encodeSignedSubset env.urlOk _ signedBytes henc hvu hvl hok
+    (by simp only [signerSubset, hlen]; decide) ⟨hd.1, by simp only [signerSubset]; omega⟩
+    ⟨hx.1, by simp only [signerSubset]; omega⟩ hgood hnd hcl
+  simp only [signerSubset, hhead] at hdec
+  have hsigs : (sigsOf b) = { authorities := [], subsets := [] } := by unfold sigsOf; rw [hfirst]; rfl
+  rw [hsigs] at hb'
+  simp only [List.nil_append, List.length_nil] at hb'
+  refine ⟨_, _, hne, by rw [hb'], ?_, rfl, by rw [hb']; exact hexs, ?_⟩
+  · -- NewVerifier
+    unfold newVerifier
+    simp only
+    have hv : verifyVouchedSubset env { authority := 0, sig := sig, signed := signedBytes } (c :: crest) t b.version =
+        some (_, c) :=
+      bs_verifyVouchedSubset_complete (cert := c) rfl hkey (by rw [← hmsg]; exact hsv) hdec rfl
+        (by
+          have := (Sxg.sub_gt_week_iff date expires ⟨by omega, hd.2⟩ ⟨by omega, hx.2⟩)
+          simp only
+          apply Int.not_lt.mp
+          intro hgt
+          have := this.mp hgt
+          omega)
+        ht1 ht2
+    simp only [List.mapM_cons, List.mapM_nil, hv]
+    rfl
+  · intro e he
+    constructor
+    · intro hc
+      obtain ⟨hno, hd', hhd⟩ := hcov e he hc
+      have hmem : (e.url, hashOf env.H rs e) ∈ coveredHashes env.H canSign rs b.exchanges :=
+        List.mem_map.mpr ⟨e, List.mem_filter.mpr ⟨he, hc⟩, rfl⟩
+      have hdig := bs_piExch_digest env.H rs e hno
+      apply bs_verifyExchange_complete (rhs := hashOf env.H rs e)
+        (rh := { headerSha256 := (headerSha256 env.H (piExch env.H rs e).resp).getD [],
+                 payloadIntegrityHeader := Mice.Enc.draft03.integrityIdentifier })
+      · simp only
+        rw [bs_find_sortHashes _ hnd]
+        exact bs_find_of_mem _ hnd _ _ hmem
+      · rfl
+      · rfl
+      · rw [hhd]; rfl
+      · rfl
+      · rw [hdig]; exact Sxg.inv_digest_ne_nil _ _ _ _
+      · rw [hdig]
+        exact C14.decode_encode env.H hlen .draft03 e.resp.body rs 16384 hrs hrs2 (by omega)
+    · intro hc
+      apply bs_verifyExchange_unsigned
+      simp only
+      rw [bs_find_sortHashes _ hnd, List.find?_eq_none]
+      intro x hx hxk
+      obtain ⟨e2, he2, rfl⟩ := List.mem_map.mp hx
+      have hc2 := (List.mem_filter.mp he2).2
+      have : e2.url = e.url := eq_of_beq hxk
+      rw [this, hc] at hc2
+      cases hc2
+
 end WebPkg.BSig
